@@ -1,6 +1,6 @@
 (* C15 - Variable byte integers are encoded minimally and decoded exactly.
    Statements only; proofs live in Proofs/. *)
-From MQ Require Import Model.Stream Proofs.BytesP Proofs.VbP Proofs.StreamP.
+From MQ Require Import Model.Stream Proofs.BytesP Proofs.VbP Proofs.StreamP Model.WireIR Proofs.WireIRP Proofs.FillP gen.GenWire gen.SyncWire.
 
 (* Every value 0 .. 268 435 455 is written in the unique minimal
    one-to-four-byte form: the output is well formed (seven bits per
@@ -81,3 +81,21 @@ Print Assumptions C15_agree_accept.
 Example C15_example : enc_vb 268435455 = [xff; xff; xff; x7f] /\ enc_vb 128 = [x80; x01]
   /\ dec_vb [x80; x01; x00] = Ok 128.
 Proof. vm_compute. repeat split. Qed.
+
+(* enc_vb, the encoder the theorems above speak about, is the loop of the
+   source as it stands: vbint.fill, translated statement by statement and
+   regenerated on every run (gen/GenWire.v), is the statement list the model
+   holds; running it on any buffer at any position reports length (enc_vb n)
+   and - given room - has stored exactly enc_vb n there (each byte under its
+   own guard `i < len(data)`; on the nil slice nothing is stored and the count
+   is the width, which is how width() and the size pass use it). *)
+Theorem C15_encoder_is_the_source :
+  g_wire_progs = wire_progs /\
+  forall n id buf i,
+    exists b', run_fill prog_vbint_fill (env_of Vb (VN n) id) buf i = Some (b', List.length (enc_vb n)) /\
+               List.length b' = List.length buf /\
+               ((i + List.length (enc_vb n) <= List.length buf)%nat -> b' = put buf i (enc_vb n)).
+Proof.
+  split; [exact sync_wire_progs|]. intros n id buf i. unfold prog_vbint_fill. rewrite run_vb_fill. exact (fill_vb_ok n buf i).
+Qed.
+Print Assumptions C15_encoder_is_the_source.
